@@ -280,4 +280,56 @@ Proof.
   - exact Hl.
 Qed.
 
+Notation okstepS := (okstepS pv bound).
+Notation sext := (sext pv).
+
+Lemma sext_refl sc e : sext sc e e. Proof. intros v _. reflexivity. Qed.
+Lemma sext_trans sc sc1 e e1 e2 : sext sc e e1 -> sext sc1 e1 e2 -> incl sc sc1 -> sext sc e e2.
+Proof.
+  intros H1 H2 Hi v Hv. rewrite H2; [apply H1; exact Hv|]. destruct Hv as [Hv| ->]; [left; apply Hi; exact Hv | right; reflexivity].
+Qed.
+
+Lemma rel_shrink sc sc' e e' st E stL :
+  rel sc' e' st E stL -> incl sc sc' -> sext sc e e' -> rel sc e st E stL.
+Proof.
+  intros [Hv Hb Hi Hp Hpb HpE HpG Hwf Ht Hl] Hincl Hs. constructor.
+  - intros w Hw. destruct (Hv w (Hincl w Hw)) as (cc & x & p & H1 & H2 & H3 & H4).
+    exists cc, x, p. splits; auto. rewrite <- (Hs w (or_introl Hw)). exact H1.
+  - intros w Hw. apply Hb. apply Hincl. exact Hw.
+  - intros v1 v2 cc H1 H2 Ha Hb2. apply (Hi v1 v2 cc); auto.
+    + rewrite (Hs v1 (or_introl H1)). exact Ha.
+    + rewrite (Hs v2 (or_introl H2)). exact Hb2.
+  - destruct Hp as (cp & Hlkp & Hnthp & Hdist). exists cp. splits.
+    + rewrite <- (Hs pv (or_intror eq_refl)). exact Hlkp.
+    + exact Hnthp.
+    + intros w Hw. rewrite <- (Hs w (or_introl Hw)). apply Hdist. apply Hincl. exact Hw.
+  - exact Hpb.
+  - exact HpE.
+  - exact HpG.
+  - exact Hwf.
+  - exact Ht.
+  - exact Hl.
+Qed.
+
+(* an exit after a prefix that ran normally *)
+Lemma exit_pre {A} ctx sc sc1 e e1 st st1 F F1 c c0 c1 E stL b1 E1 stL1 b2 (r : SyltSem.res A) st' :
+  okstepS sc sc1 e1 st1 F c c0 E stL b1 E1 stL1 F1 -> rel sc e st E stL -> sext sc e e1 -> incl sc sc1 ->
+  exit_post pv bound ctx sc1 e1 c0 c1 E1 stL1 b2 r st' -> c <= c0 -> c0 <= c1 ->
+  exit_post pv bound ctx sc e c c1 E stL (b1 ++ b2) r st'.
+Proof.
+  intros (Hx1 & Hf1 & Hr1 & Hn1 & Hk1) Hrel Hse Hinc (rl & Hx2 & Hok) Ha Hb.
+  exists rl. split; [eapply ExecS_app; eassumption|].
+  assert (Hback : forall stL', rel sc1 e1 st' E1 stL' -> xkeep bound c0 c1 E1 stL1 stL' ->
+                    rel sc e st' E stL' /\ xkeep bound c c1 E stL stL').
+  { intros stL' Hr [Hnc Hc]. split.
+    - eapply (rel_restrict sc e st e st' E E1 stL stL'); [exact Hrel | eapply rel_shrink; eassumption | exact Hk1 |].
+      pose proof (wr_ncell _ _ _ _ _ _ _ Hf1). lia.
+    - split; [pose proof (wr_ncell _ _ _ _ _ _ _ Hf1); lia|].
+      intros t p Hbt Hr' Hp. rewrite (Hc t p Hbt); [| lia | apply (wr_incl _ _ _ _ _ _ _ Hf1); assumption].
+      apply (wr_cells _ _ _ _ _ _ _ Hf1 t p Hbt); [lia | exact Hp]. }
+  destruct r as [a|o|[| |v]]; cbn [exit_ok] in *; try contradiction; try exact Hok.
+  - destruct Hok as (E' & stL' & -> & Hr & Hk). exists E', stL'. split; [reflexivity | apply Hback; assumption].
+  - destruct Hok as (E' & stL' & -> & Hr & Hk). exists E', stL'. split; [reflexivity | apply Hback; assumption].
+Qed.
+
 End Sim.
